@@ -1085,6 +1085,10 @@ func (m *Machine) convert(v Val, from, to types.Type) Val {
 			case tb == i.Bits:
 				return Int{Bits: tb, Signed: ts, T: i.T}
 			case tb < i.Bits:
+				// byte(x >> 8k) is a plain bit-field of x: keep it recognisable for the solver's rewriter
+				if x, c, ok := splitLshr(i.T.S, i.Bits); ok && c+tb <= i.Bits {
+					return Int{Bits: tb, Signed: ts, T: m.app(tb, fmt.Sprintf("(_ extract %d %d)", c+tb-1, c), &Term{x, i.Bits})}
+				}
 				return Int{Bits: tb, Signed: ts, T: m.app(tb, fmt.Sprintf("(_ extract %d 0)", tb-1), i.T)}
 			case fs:
 				return Int{Bits: tb, Signed: ts, T: m.app(tb, fmt.Sprintf("(_ sign_extend %d)", tb-i.Bits), i.T)}
@@ -1157,4 +1161,36 @@ func (m *Machine) convert(v Val, from, to types.Type) Val {
 		return v
 	}
 	panic(Unsupported{fmt.Sprintf("convert %s -> %s", from, to)})
+}
+
+// splitLshr recognises "(bvlshr X #x…c)" and returns X and the shift count.
+func splitLshr(t string, bits int) (string, int, bool) {
+	if !strings.HasPrefix(t, "(bvlshr ") || !strings.HasSuffix(t, ")") {
+		return "", 0, false
+	}
+	body := t[len("(bvlshr ") : len(t)-1]
+	k := strings.LastIndex(body, " ")
+	if k < 0 {
+		return "", 0, false
+	}
+	x, c := body[:k], body[k+1:]
+	if !strings.HasPrefix(c, "#x") {
+		return "", 0, false
+	}
+	var n uint64
+	if _, err := fmt.Sscanf(c[2:], "%x", &n); err != nil || n >= uint64(bits) {
+		return "", 0, false
+	}
+	// X must be one balanced term
+	depth := 0
+	for i, ch := range x {
+		if ch == '(' {
+			depth++
+		} else if ch == ')' {
+			depth--
+		} else if ch == ' ' && depth == 0 && i > 0 {
+			return "", 0, false
+		}
+	}
+	return x, int(n), true
 }
